@@ -11,10 +11,18 @@ PROP = dict(
                        "Comdex.C19.f64_satisfies_float_hypothesis", "Comdex.C19.farmer_share_le_prorata_1e12_partial",
                        "Comdex.C19.farmer_share_1e12_counterexample", "Comdex.C19.accepted_gauge_split_sums",
                        "Comdex.C19.every_gauge_split_sums", "Comdex.C19.split_zero_epochs_panics",
-                       "Comdex.C19.ext_overpay_counterexample", "Comdex.C19.custody_ge_active_remaining"],
+                       "Comdex.C19.ext_overpay_counterexample", "Comdex.C19.custody_ge_active_remaining",
+                       "Comdex.C19.ext_share_epoch_bound", "Comdex.C19.ext_share_epoch_cap_partial",
+                       "Comdex.C19.ext_lend_block_each_programme_bounded", "Comdex.C19.ext_lend_weights_vs_total",
+                       "Comdex.C19.ext_lend_daily_value", "Comdex.C19.ext_lend_value_at_par", "Comdex.C19.ext_lend_epoch_cap_partial",
+                       "Comdex.C19.ext_lend_value_as_amount_counterexample", "Comdex.C19.ext_lend_truncated_total_counterexample",
+                       "Comdex.C19.ext_share_visit_valid", "Comdex.C19.ext_cumulative_is_funding_minus_available",
+                       "Comdex.C19.ext_epochs_le_duration", "Comdex.C19.ext_one_epoch_per_visit", "Comdex.C19.ext_not_due_twice",
+                       "Comdex.C19.ext_available_nonneg_of_epoch_caps", "Comdex.C19.ext_accepted_programme_funded"],
     harness_tests=["TestC19"],
     monitors=["split_sum", "zero_epochs", "epoch_cap", "cumulative_cap", "farmer_share", "farmer_share_1e12", "custody",
-              "custody_ext_overpaid", "float_hyp"],
+              "custody_ext_overpaid", "float_hyp", "ext_epoch_cap", "ext_epoch_bound", "ext_cumulative_cap", "ext_available_nonneg",
+              "ext_schedule", "ext_share_total", "ext_lend_value_as_amount", "ext_lend_truncated_total"],
     trusted_base=[KERNEL_TB, HARNESS_TB, DEC_TB,
                   "Model/Gauge.lean is hand-written from x/rewards/keeper/{utils,gauge,distribution,epochs,iter}.go and "
                   "x/liquidity/keeper/rewards.go:168-307; tied by running the real SplitTotalAmountPerEpoch, GetFarmingRewardsData, "
